@@ -391,7 +391,37 @@ class Machine(object):
                     raise Unknown('step limit')
         elif k == 'NullStmt':
             pass
-        elif k in ('SwitchStmt', 'CXXTryStmt', 'GotoStmt'):
+        elif k == 'SwitchStmt':
+            val = self.rv(n['cond'])
+            body = fn.nodes[n['body']]
+            if body['k'] != 'CompoundStmt':
+                raise Unknown('switch body')
+            items = []      # (labels, statement)
+            for c in body.get('ch', []):
+                labels = []
+                x = c
+                while fn.nodes[x]['k'] in ('CaseStmt', 'DefaultStmt'):
+                    xv = fn.nodes[x]
+                    labels.append('default' if xv['k'] == 'DefaultStmt' else fn.val(xv['lhs']))
+                    x = xv['sub']
+                items.append((labels, x))
+            start = None
+            for i, (labels, st_) in enumerate(items):
+                if val in labels:
+                    start = i
+                    break
+            if start is None:
+                for i, (labels, st_) in enumerate(items):
+                    if 'default' in labels:
+                        start = i
+                        break
+            if start is not None:
+                try:
+                    for labels, st_ in items[start:]:
+                        self.st(st_)
+                except _Break:
+                    pass
+        elif k in ('CXXTryStmt', 'GotoStmt'):
             raise Unknown('statement %s' % k)
         else:
             self.ev(x)
